@@ -9,6 +9,7 @@ use crate::core::batch::Params;
 use crate::core::ctx;
 use crate::core::exec::block_on;
 use crate::engines::stor::AnyDoc;
+use identity_core::convert::FromJson;
 use identity_did::CoreDID;
 use identity_document::document::CoreDocument;
 use identity_document::verifiable::JwsVerificationOptions;
@@ -262,10 +263,27 @@ fn new_stored_signer(n: usize, clock: &Clock) -> Option<Signer> {
   }
   // a second method for the separation checks
   p.gen_method("second", Some(1)).ok()?;
+  // a document assembled elsewhere: keyAgreement REFERS to a method of another DID that shares the fragment of the
+  // signer's own #key (which is not part of keyAgreement)
+  if ctx::choose(3) == 0 {
+    let mut dj = serde_json::to_value(p.doc.core()).unwrap();
+    let mut arr = dj.get("keyAgreement").and_then(|a| a.as_array().cloned()).unwrap_or_default();
+    if !arr.iter().any(|e| e.as_str().map(|s| s.ends_with("#key")).unwrap_or(false)) {
+      arr.insert(0, Value::from("did:sim:elsewhere#key"));
+      dj["keyAgreement"] = Value::Array(arr);
+      if let Ok(core) = CoreDocument::from_json_value(dj) {
+        p.doc = match &p.doc {
+          AnyDoc::Core(_) => AnyDoc::Core(core),
+          AnyDoc::Iota(_) => AnyDoc::Iota(identity_iota_core::IotaDocument::from(core)),
+        };
+        ctx::stat("probe.foreign_reference_sharing_signer_fragment");
+      }
+    }
+  }
   let jwk = p
     .doc
     .core()
-    .resolve_method("key", None)
+    .resolve_method(format!("{}#key", p.did).as_str(), None)
     .and_then(|m| m.data().public_key_jwk().cloned())
     .map(|j| serde_json::to_value(j).unwrap())?;
   Some(Signer {
@@ -291,7 +309,8 @@ impl Signer {
   fn sign(&self, input: &[u8]) -> Result<Vec<u8>, String> {
     match &self.kind {
       SignerKind::Stored(p) => {
-        let method = p.doc.core().resolve_method(self.fragment.as_str(), None).ok_or("no method")?;
+        // (by full id: a bare fragment is ambiguous when another DID's method of that fragment is referenced)
+        let method = p.doc.core().resolve_method(self.kid().as_str(), None).ok_or("no method")?;
         let digest = MethodDigest::new(method).map_err(|e| e.to_string())?;
         let key_id = block_on(p.storage.key_id_storage().get_key_id(&digest)).map_err(|e| e.to_string())?;
         let jwk: Jwk = serde_json::from_value(self.jwk.clone()).map_err(|e| e.to_string())?;
@@ -348,6 +367,15 @@ struct Notice {
   via_create_jws: bool,
   /// hand-assembled by the harness from two separately produced tokens (not an encoder output as a whole)
   assembled: bool,
+}
+
+/// A nonce: short, or (one in five) longer than any fixed-size comparison buffer is likely to be.
+fn gen_nonce() -> String {
+  if ctx::choose(5) == 0 {
+    format!("session-{}-{}", "0123456789abcdef".repeat(4 + ctx::choose(3)), ctx::choose(1000))
+  } else {
+    format!("n{}", ctx::choose(1000))
+  }
 }
 
 fn gen_payload(b64_flag: bool, ser: Ser, detached: bool) -> Vec<u8> {
@@ -424,7 +452,7 @@ fn header_json(signer: &Signer, b64_flag: bool, explicit_b64_true: bool, nonce: 
 fn produce(signers: &[Signer], events: &mut Vec<SignEvent>, ser: Ser) -> Option<Notice> {
   let b64_flag = ctx::choose(3) != 0;
   let detached = ctx::choose(3) == 0;
-  let nonce = if ctx::choose(3) == 0 { Some(format!("n{}", ctx::choose(1000))) } else { None };
+  let nonce = if ctx::choose(3) == 0 { Some(gen_nonce()) } else { None };
   let raw = gen_payload(b64_flag, ser, detached);
   let n_signers = if ser == Ser::General { 1 + ctx::choose(3.min(signers.len())) } else { 1 };
   // arrival order of co-signers chosen by the tape
@@ -648,7 +676,7 @@ fn produce_create_jws(signers: &[Signer], si: usize, faulty: bool) -> Option<Not
   if detached {
     opts = opts.detached_payload(true);
   }
-  let nonce = if ctx::choose(3) == 0 { Some(format!("n{}", ctx::choose(1000))) } else { None };
+  let nonce = if ctx::choose(3) == 0 { Some(gen_nonce()) } else { None };
   if let Some(n) = &nonce {
     opts = opts.nonce(n.clone());
   }
@@ -715,8 +743,8 @@ fn produce_create_jws(signers: &[Signer], si: usize, faulty: bool) -> Option<Not
   p.ctl.begin_op(0);
   let before = p.ctl.sign_log.borrow().len();
   let r = match &p.doc {
-    AnyDoc::Core(d) => block_on(d.create_jws(&p.storage, &s.fragment, &raw, &opts)),
-    AnyDoc::Iota(d) => block_on(d.create_jws(&p.storage, &s.fragment, &raw, &opts)),
+    AnyDoc::Core(d) => block_on(d.create_jws(&p.storage, &s.kid(), &raw, &opts)),
+    AnyDoc::Iota(d) => block_on(d.create_jws(&p.storage, &s.kid(), &raw, &opts)),
   };
   let injected = !p.ctl.failed_kinds().is_empty();
   p.ctl.end_op();
@@ -738,8 +766,8 @@ fn produce_create_jws(signers: &[Signer], si: usize, faulty: bool) -> Option<Not
         // retry without faults must succeed
         p.ctl.begin_op(0);
         let r2 = match &p.doc {
-          AnyDoc::Core(d) => block_on(d.create_jws(&p.storage, &s.fragment, &raw, &opts)),
-          AnyDoc::Iota(d) => block_on(d.create_jws(&p.storage, &s.fragment, &raw, &opts)),
+          AnyDoc::Core(d) => block_on(d.create_jws(&p.storage, &s.kid(), &raw, &opts)),
+          AnyDoc::Iota(d) => block_on(d.create_jws(&p.storage, &s.kid(), &raw, &opts)),
         };
         p.ctl.end_op();
         match r2 {
@@ -830,6 +858,8 @@ enum Move {
   StripSignature,
   /// one or two bytes appended to a signature (a longer byte string is another byte string)
   ExtendSignature,
+  /// base64 padding characters appended to the protected header segment (other bytes than the ones signed)
+  PadProtected,
 }
 
 struct Delivered {
@@ -852,7 +882,7 @@ fn flip_in_segment(seg: &str) -> Option<String> {
 }
 
 fn deliver(n: &Notice, others: &[Notice]) -> Delivered {
-  let mv = match ctx::weighted(&[8, 2, 2, 2, 1, 1, 1, 1, 1, 1, 1]) {
+  let mv = match ctx::weighted(&[8, 2, 2, 2, 1, 1, 1, 1, 1, 1, 1, 1]) {
     0 => Move::Intact,
     1 => Move::FlipProtected,
     2 => Move::FlipPayload,
@@ -863,7 +893,8 @@ fn deliver(n: &Notice, others: &[Notice]) -> Delivered {
     7 => Move::BothPayloads,
     8 => Move::WrongDetached,
     9 => Move::StripSignature,
-    _ => Move::ExtendSignature,
+    10 => Move::ExtendSignature,
+    _ => Move::PadProtected,
   };
   let extend = |seg: &str| -> Option<String> {
     let mut raw = b64url_decode(seg)?;
@@ -1009,6 +1040,36 @@ fn deliver(n: &Notice, others: &[Notice]) -> Delivered {
         None
       }
     }
+    (Move::PadProtected, Ser::Compact) => {
+      let parts: Vec<&str> = n.wire.split('.').collect();
+      if parts.len() == 3 {
+        wire = format!("{}{}.{}.{}", parts[0], ["=", "=="][ctx::choose(2)], parts[1], parts[2]);
+        Some(())
+      } else {
+        None
+      }
+    }
+    (Move::PadProtected, _) => json_edit(&|v: &mut Value| {
+      let target: Option<&mut Value> = if v.get("signatures").is_some() {
+        let k = v["signatures"].as_array().map(|a| a.len()).unwrap_or(0);
+        if k == 0 {
+          None
+        } else {
+          let i = ctx::choose(k);
+          v["signatures"][i].get_mut("protected")
+        }
+      } else {
+        v.get_mut("protected")
+      };
+      match target {
+        Some(Value::String(p)) => {
+          p.push_str(["=", "=="][ctx::choose(2)]);
+          true
+        }
+        _ => false,
+      }
+    })
+    .map(|w| wire = w),
     (Move::ExtendSignature, Ser::Compact) => {
       let parts: Vec<&str> = n.wire.split('.').collect();
       match (parts.len(), parts.get(2).and_then(|s| extend(s))) {
@@ -1074,6 +1135,7 @@ fn deliver(n: &Notice, others: &[Notice]) -> Delivered {
     Move::WrongDetached => ctx::stat("fault.adversary.wrong_detached_payload"),
     Move::StripSignature => ctx::stat("fault.adversary.strip_signature"),
     Move::ExtendSignature => ctx::stat("fault.adversary.extend_signature"),
+    Move::PadProtected => ctx::stat("fault.adversary.pad_protected_header"),
     Move::Intact => {}
   }
   Delivered { wire, detached, mv }
@@ -1488,7 +1550,17 @@ fn separation(signers: &[Signer], n: &Notice) {
     ctx::stat("probe.separation.other_key_rejected");
   }
   // another nonce
-  if verify(&base().nonce("someothernonce".to_owned())).is_ok() {
+  // (another nonce: an unrelated one, or the token's nonce with only its LAST character changed)
+  let other_nonce = match &n.nonce {
+    Some(t) if ctx::choose(2) == 0 => {
+      let mut o = t.clone();
+      let last = o.pop().unwrap_or('x');
+      o.push(if last == 'z' { 'y' } else { 'z' });
+      o
+    }
+    _ => "someothernonce".to_owned(),
+  };
+  if verify(&base().nonce(other_nonce)).is_ok() {
     ctx::violation("C08", "C08.separation", "verifies-under-other-nonce", "token verifies under a different nonce");
   } else {
     ctx::stat("probe.separation.other_nonce_rejected");
